@@ -729,6 +729,29 @@ func run(f lib.Flags, scratch string) error {
 		if err := writeTree(root, t, dirName, false); err != nil {
 			return err
 		}
+		// every fourth installed tree: the first version directory of each plugin is a symbolic link to a directory
+		if installed && i%4 == 0 {
+			for ri, rp := range t {
+				for pi, p := range rp.plugs {
+					if len(p.versions) == 0 {
+						continue
+					}
+					d := filepath.Join(root, rp.name, dirName(p.name), p.versions[0])
+					target := filepath.Join(scratch, fmt.Sprintf("list-%d-targets", i), fmt.Sprintf("%d-%d", ri, pi))
+					if err := os.MkdirAll(filepath.Dir(target), 0o755); err != nil {
+						return err
+					}
+					if err := os.Rename(d, target); err != nil {
+						return err
+					}
+					if err := os.Symlink(target, d); err != nil {
+						return err
+					}
+				}
+			}
+			cf.Count("list_with_symlinked_version_directories")
+			defer os.RemoveAll(filepath.Join(scratch, fmt.Sprintf("list-%d-targets", i)))
+		}
 		os.Setenv("OCTOSQL_PLUGIN_DIR", root)
 		var got []manager.PluginMetadata
 		var err error
@@ -740,7 +763,8 @@ func run(f lib.Flags, scratch string) error {
 		os.Unsetenv("OCTOSQL_PLUGIN_DIR")
 		os.RemoveAll(root)
 		obs := ""
-		js := map[string]interface{}{"kind": "list", "installed": installed, "tree": treeJSON(t)}
+		js := map[string]interface{}{"kind": "list", "installed": installed, "tree": treeJSON(t),
+			"first_version_directory_of_each_plugin_is_a_symlink": installed && i%4 == 0}
 		if panicked != nil {
 			obs = "(Panic 1)"
 			js["panic"] = fmt.Sprint(panicked)
@@ -948,7 +972,7 @@ func run(f lib.Flags, scratch string) error {
 			}
 			return arg, cons, how, nil
 		}
-		switch i % 3 {
+		switch i % 4 {
 		case 0: // one repository, one Install
 			manifest := genManifest(r, base, r.Intn(6))
 			key := fmt.Sprintf("m%d", i)
@@ -986,6 +1010,27 @@ func run(f lib.Flags, scratch string) error {
 				return err
 			}
 			if err := installStep(ipm, root, slugs[target], name, arg, cons, manifests[target], cs, withC, how, fmt.Sprintf("repository_%d_of_%d", target+1, len(slugs))); err != nil {
+				return err
+			}
+		case 3: // name@M / name@M.m: a bare partial version after '@' is a constraint (M = the highest M.x.y), not a pin
+			line := int64(1 + r.Intn(3))
+			manifest := []ver{{maj: line, min: 1 + int64(r.Intn(3)), pat: int64(r.Intn(4))}, {maj: line, min: 0, pat: 1 + int64(r.Intn(3))},
+				{maj: line + 1, min: 0, pat: 0}, {maj: line, min: 5, pat: 0, pre: []string{"rc", "1"}}, {maj: line - 1, min: 9, pat: 9}}
+			if r.Bool() {
+				manifest = append(manifest, ver{maj: line, min: 0, pat: 0})
+			}
+			if r.Bool() {
+				manifest = append(manifest, ver{maj: line, min: manifest[0].min, pat: 0})
+			}
+			one := cspec{opTxt: "", maj: seg{n: line}}
+			if r.Chance(1, 3) {
+				one.min = &seg{n: manifest[0].min}
+			}
+			cs, withC = constraints{{one}}, true
+			key := fmt.Sprintf("m%d", i)
+			publish(key, manifest)
+			ipm := &manager.PluginManager{Repositories: []repository.Repository{{Slug: "core", Plugins: []repository.Plugin{{Name: name, ManifestURL: fx.addr + "/manifest/" + key}}}}}
+			if err := installStep(ipm, root, "core", name, name+"@"+cs.text(), nil, manifest, cs, true, "inline", "bare_partial_version_after_at"); err != nil {
 				return err
 			}
 		default: // install, the manifest gains higher versions (a release and a prerelease on top), install again
